@@ -505,7 +505,9 @@ DENSE = sorted(set(range(0, 13)) | set(range(88, 102)) | set(range(988, 1002))) 
 SINGLE_QUICK = [1, 8, 9, 10, 11, 90, 98, 99, 100, 990, 999, 1000]  # singles (quick), absolute
 PAIR_QUICK = [9, 10, 99]  # absolute starts
 PAIR_FULL = [1, 5, 8, 9, 10, 11, 90, 95, 98, 99, 100, 990, 998, 999, 1000]  # absolute starts
-TRIPLE = [9, 99]  # absolute starts (with 0 = base: full product {base, 9, 99}^7 in thorough)
+MULTI_QUICK = [9, 99]  # absolute starts for states shifting >= 3 counters (quick)
+MULTI_FULL = [9, 10, 99, 100]  # ... (thorough)
+IRRELEVANT = [9, 99]  # absolute starts at which forms NOT consuming the shifted class are also checked
 
 
 def ks_for(counter, absolute, extra_shifts=()):
@@ -534,41 +536,41 @@ def main(argv):
     for n in names:
         run.outcomes.add(f"{n}:{REF[n]['sig'][:16]}")
 
-    # ---- single-counter states: complete over the dense start set and the design's k set ---------
-    singles = []
+    support = {n: [c for c in COUNTERS if REF[n]["usage"][c] > 0] for n in names}
+
+    # ---- single-counter states -------------------------------------------------------------------
+    # every form that consumes objects of class X: all start values of the single set;
+    # forms that do not consume X ("irrelevant" counter): start values 9 and 99 only (+ the whole sweep)
     single_set = SINGLE_QUICK if quick else DENSE
+    plan = {(): list(names)}
     for c in COUNTERS:
+        irrelevant_ks = ks_for(c, IRRELEVANT)
         for k in ks_for(c, single_set, USER_K):
-            singles.append(((c, k),))
-    items = [((), names, True)] + [(s, names, True) for s in singles]
-    for d in pmap(work_states, items, seed=run.seed):
+            forms = [n for n in names if c in support[n] or k in irrelevant_ks]
+            if forms:
+                plan[((c, k),)] = forms
+    singles = [s for s in plan if s]
+    ran_single = {(s[0][0], s[0][1], n) for s in singles for n in plan[s]}
+    for d in pmap(work_states, [(s, ns, True) for s, ns in plan.items()], seed=run.seed):
         run.merge(d)
         for st, n in d["mismatch"]:
             if len(st) == 1:
                 SINGLE_BAD.add((st[0][0], st[0][1], n))
 
     _progress(run, f"{len(singles)} single-counter states done")
-    # ---- multi-counter states ----------------------------------------------------------------------
-    multi = set()
+    # ---- multi-counter states: per form, the full product over the counters the form consumes -----
     pair_set = PAIR_QUICK if quick else PAIR_FULL
-    for c1, c2 in itertools.combinations(COUNTERS, 2):
-        for k1 in ks_for(c1, pair_set):
-            for k2 in ks_for(c2, pair_set):
-                multi.add(canon(((c1, k1), (c2, k2))))
-    n_pairs = len(multi)
-    if quick:
-        # all triples over {base, 9}: only the genuinely three-counter states
-        for cs in itertools.combinations(COUNTERS, 3):
-            multi.add(canon(tuple((c, ks_for(c, [9])[0]) for c in cs)))
-    else:
-        # the full product {base, 9, 99}^7 (contains all triples over that set)
-        opts = [[0] + ks_for(c, TRIPLE) for c in COUNTERS]
-        for ks in itertools.product(*opts):
-            st = canon(tuple(zip(COUNTERS, ks)))
-            if len(st) >= 2:
-                multi.add(st)
-    multi = sorted(multi)
-    for d in pmap(work_states, [(s, names, False) for s in multi], seed=run.seed):
+    multi_set = MULTI_QUICK if quick else MULTI_FULL
+    mplan = {}
+    for n in names:
+        for r in range(2, len(support[n]) + 1):
+            for cs in itertools.combinations(support[n], r):
+                opts = [ks_for(c, pair_set if r == 2 else multi_set) for c in cs]
+                for ks in itertools.product(*opts):
+                    mplan.setdefault(canon(tuple(zip(cs, ks))), []).append(n)
+    multi = sorted(mplan)
+    n_pairs = sum(1 for s in multi if len(s) == 2)
+    for d in pmap(work_states, [(s, mplan[s], False) for s in multi], seed=run.seed):
         run.merge(d)
 
     _progress(run, f"{len(multi)} multi-counter states done")
@@ -583,16 +585,18 @@ def main(argv):
     for d in pmap(work_sweep, sweep_items, seed=run.seed):
         cand |= {(c, k, n) for c, k, n in d["bad"]}
         run.merge(d)
-    done_single = {s[0] for s in singles}
     run.count("sweep_mismatches", len(cand))
-    # consistency of the sweep model with the real histories on the states explored both ways
-    for c, k in sorted(done_single):
-        for n in names:
+    # consistency of the sweep model with the real histories on the cases explored both ways
+    n_both = 0
+    for c, k, n in sorted(ran_single):
+        if BASE[c] + k <= hi:
+            n_both += 1
             if ((c, k, n) in cand) != ((c, k, n) in SINGLE_BAD):
                 raise RuntimeError(f"sweep (installed counter) disagrees with the forked history at {c}+{k}:{n}")
+    run.count("sweep_cases_cross_checked_against_forked_histories", n_both)
     todo = {}
     for c, k, n in sorted(cand):
-        if (c, k) not in done_single:
+        if (c, k, n) not in ran_single:
             todo.setdefault(((c, k),), []).append(n)
     confirmed = 0
     for d in pmap(work_states, [(s, ns, False) for s, ns in sorted(todo.items())], seed=run.seed):
@@ -623,11 +627,13 @@ def main(argv):
     run.rule = (
         "cases = (counter-offset state, catalogue form); each state is reached by really creating throw-away "
         "objects in a forked image of a clean parent, each form is built in its own forked grandchild and "
-        "form.signature() is compared with the zero history. States: every single-counter start value of the "
-        "dense set, all counter pairs over the pair set, triples/full product over {base,9,99}; plus rebuild, "
-        "sequential and fresh-interpreter (hash seed) histories. Non-trivial = the form consumes at least one "
-        "object of a shifted counter class (measured from the counters before/after the build); rebuild / "
-        "sequential / fresh-interpreter cases always count"
+        "form.signature() is compared with the zero history. Per form, the COMPLETE product of start-value sets "
+        "over the counters the form consumes (measured) is enumerated: all single-counter starts of the single "
+        "set, all pairs over the pair set, all r>=3 subsets over the multi set (the other counters at base); "
+        "counters a form does not consume are shifted at starts 9 and 99 and over the whole sweep range; plus "
+        "rebuild (every single state), sequential and fresh-interpreter (hash seed) histories. Non-trivial = the "
+        "form consumes at least one object of a shifted counter class (measured from the counters before/after "
+        "the build); rebuild / sequential / fresh-interpreter cases always count"
     )
     run.bounds = {
         "catalogue_forms": len(names),
@@ -639,7 +645,8 @@ def main(argv):
         "pair_absolute_starts": pair_set,
         "pair_states": n_pairs,
         "multi_counter_states_total": len(multi),
-        "triples": "all 3-subsets with start 9" if quick else "full product {base,9,99}^7",
+        "starts_for_states_shifting_3_or_more_counters": multi_set,
+        "starts_for_counters_a_form_does_not_consume": IRRELEVANT,
         "sweep_absolute_start_range_per_counter": [0, hi],
         "hash_seeds": seeds,
         "hash_seed_derived_from_VERIF_SEED": derived,
